@@ -42,6 +42,8 @@ def run(ch: Checker) -> None:
                      'without another client queue', 5)
     ch.rule('C06.4', 'no HttpProtocolException subclass that overrides response() is raised from the modules HttpParser.parse runs (parser, chunk, protocol, url): '
                      'the handler has already queued 400 for parse failures', 3)
+    ch.rule('C06.6', 'every header map handed to a response/request builder that writes into it (okResponse, build_http_response, ...) is created for that one message, '
+                     'never a module-level or class-level map: otherwise headers computed for one response (Content-Encoding, Content-Length, Connection) leak into later ones', 3)
     ch.rule('C06.5', 'canned packets in responses.py carry the status code they are named after and a non-empty reason', 7)
 
     # ---------------- C06.1 call sites
@@ -239,6 +241,10 @@ def run(ch: Checker) -> None:
         ok5 = info is not None and info['status'] == want and bool(info['reason'])
         ch.check(bool(ok5), 'C06.5', None, name, 'status %d with a reason' % want,
                  '%s evaluates to status %s reason %r (expected %d)' % (name, info['status'] if info else None, info['reason'] if info else None, want), module_rel='proxy/http/responses.py')
+
+    # ---------------- C06.6 per-message header maps
+    from .common import fresh_headers_check
+    fresh_headers_check(ch, 'C06.6')
 
 
 def _owner(prog: Any, mod: Any, node: ast.AST) -> Optional[FuncInfo]:
